@@ -9,6 +9,7 @@
 From Coq Require Import List Reals Lra Lia Arith Bool QArith Qreals.
 From Coq Require String.
 From NV Require Import Scalar.Ops Model.Common Model.Basis Model.Knots Model.Eval Model.Config Proofs.BasisR Proofs.KnotsR Proofs.ConfigR Transfer.BasisT Transfer.ConfigT.
+From NV Require Import Model.Degree Model.Derivs Proofs.EvalR Proofs.DerivAnalytic Proofs.DerivCptsSpec Proofs.DerivsAgreeGeneral Proofs.DerivsAgreeGeneralSurf.
 Import ListNotations.
 Open Scope R_scope.
 
@@ -167,3 +168,52 @@ Example C17_memo_example :
   pool_map 4 (fun x => x * x)%nat [1;2;3;4;5;6;7;8;9;10;11;12;13;14;15;16;17]%nat = map (fun x => x * x)%nat [1;2;3;4;5;6;7;8;9;10;11;12;13;14;15;16;17]%nat /\
   chunk 2 [1;2;3;4;5]%nat = [[1;2];[3;4];[5]]%nat /\ cache_size_env (Some env16) 128 = Ok (Some 16%nat).
 Proof. repeat split; vm_compute; reflexivity. Qed.
+
+(* ====================== evaluator variants agree for all degrees (round 2, Proofs/DerivsAgreeGeneral*.v) ====================== *)
+(* ===================== for Props/C17.v ===================== *)
+(* [G] the Definition C17_evaluator_variants_agree_on_derivatives_full, instantiated as its comment says *)
+Theorem C17_evaluator_variants_agree_on_derivatives :
+  C17_evaluator_variants_agree_on_derivatives_full (curve_derivs Rops) (curve_derivs2 Rops).
+Proof. exact curve_evaluator_variants_agree_full. Qed.
+Print Assumptions C17_evaluator_variants_agree_on_derivatives.
+
+(* [G] stronger: every real u *)
+Theorem C17_curve_evaluator_variants_agree : forall (U : list R) (P : list (list R)) (p dim : nat),
+  sortedR U -> wf_net P dim -> (p < length P)%nat -> length U = (length P + p + 1)%nat ->
+  forall (u : R) (order : nat),
+  curve_derivs2 Rops dim p U P u order = curve_derivs Rops dim p U P u order.
+Proof. exact curve_derivs2_eq_curve_derivs. Qed.
+Print Assumptions C17_curve_evaluator_variants_agree.
+
+Theorem C17_curve_object_evaluator_variants_agree : forall (U : list R) (P : list (list R)) (p dim : nat),
+  sortedR U -> wf_net P dim -> (p < length P)%nat -> length U = (length P + p + 1)%nat ->
+  forall (normalize : bool) (u : R) (order : nat),
+  Curve_derivatives Rops normalize false true dim p U P u order = Curve_derivatives Rops normalize false false dim p U P u order.
+Proof. exact Curve_derivatives_alg2_eq. Qed.
+Print Assumptions C17_curve_object_evaluator_variants_agree.
+
+Theorem C17_surface_evaluator_variants_agree : forall (Uu Uv : list R) (P : list (list R)) (pu pv su sv dim : nat),
+  sortedR Uu -> sortedR Uv -> wf_net P dim -> length P = (su * sv)%nat -> (pu < su)%nat -> (pv < sv)%nat ->
+  length Uu = (su + pu + 1)%nat -> length Uv = (sv + pv + 1)%nat ->
+  forall (u v : R) (order k l : nat), (k + l <= order)%nat ->
+  get3 (surface_derivs2 Rops dim pu pv Uu Uv su sv P u v order) k l
+  = get3 (surface_derivs Rops dim pu pv Uu Uv su sv P u v order) k l.
+Proof. exact surface_derivs2_eq_surface_derivs. Qed.
+Print Assumptions C17_surface_evaluator_variants_agree.
+
+Theorem C17_tangent_normal_independent_of_evaluator : forall (Uu Uv : list R) (P : list (list R)) (pu pv su sv dim : nat),
+  sortedR Uu -> sortedR Uv -> wf_net P dim -> length P = (su * sv)%nat -> (pu < su)%nat -> (pv < sv)%nat ->
+  length Uu = (su + pu + 1)%nat -> length Uv = (sv + pv + 1)%nat ->
+  forall (u v : R) (normalize : bool),
+  tangent_surface Rops normalize false true dim pu pv Uu Uv su sv P u v
+    = tangent_surface Rops normalize false false dim pu pv Uu Uv su sv P u v /\
+  normal_surface Rops normalize false true dim pu pv Uu Uv su sv P u v
+    = normal_surface Rops normalize false false dim pu pv Uu Uv su sv P u v.
+Proof.
+  intros Uu Uv P pu pv su sv dim H1 H2 H3 H4 H5 H6 H7 H8 u v normalize. split.
+  - exact (tangent_surface_alg2_eq Uu Uv P pu pv su sv dim H1 H2 H3 H4 H5 H6 H7 H8 u v normalize).
+  - exact (normal_surface_alg2_eq Uu Uv P pu pv su sv dim H1 H2 H3 H4 H5 H6 H7 H8 u v normalize).
+Qed.
+Print Assumptions C17_tangent_normal_independent_of_evaluator.
+
+
